@@ -30,7 +30,7 @@ ASSUMPTIONS = [
     "outcome = normalised repr of the result or (exception class, message); memory addresses are masked",
     "the born-non-strict worker clears odxtools.exceptions.strict_mode before the package __init__ runs (importlib spec trick, no repository hook)",
 ]
-MUST_HIT = ["op:encode", "op:encode-mutated", "op:decode", "op:decode-corrupt", "op:layer-decode", "op:load-bad",
+MUST_HIT = ["op:multi-layer-decode", "op:encode", "op:encode-mutated", "op:decode", "op:decode-corrupt", "op:layer-decode", "op:load-bad",
             "strict-differs", "strict-ok"]
 
 ADDR = re.compile(r"0x[0-9a-fA-F]{6,}")
@@ -115,9 +115,57 @@ def make_ops(case, extra_draws) -> list:
     return ops
 
 
+def nrc_service_ops(draw) -> list:
+    """a service with several negative responses that share the constant prefix and differ only in their
+    NRC-CONST alternatives; operations: layer decode of every response's PDU"""
+    from hypothesis import strategies as st
+    u8 = {"t": "std", "bt": "A_UINT32", "bl": 8, "enc": None, "hl": None}
+    sid = draw(st.integers(1, 0x3E))
+
+    def dop(i):
+        return {"k": "simple", "id": f"d{i}", "dct": dict(u8), "compu": {"c": "IDENTICAL"}, "pt": "A_UINT32"}
+    req = {"kind": "request", "id": "rq", "params": [
+        {"pk": "const", "name": "sid", "pos": 0, "bit": 0, "dct": dict(u8), "v": sid},
+        {"pk": "value", "name": "arg", "pos": 1, "bit": 0, "dop": dop(0), "default": None}]}
+    pool = draw(st.lists(st.integers(0x10, 0x7F), min_size=3, max_size=6, unique=True))
+    k = draw(st.integers(2, 3))
+    groups = [pool[i::k] for i in range(k)]
+    msgs = [req]
+    for i, vals in enumerate(groups):
+        if not vals:
+            continue
+        msgs.append({"kind": "response", "rtype": "NEG-RESPONSE", "id": f"nr{i}", "params": [
+            {"pk": "const", "name": "sid", "pos": 0, "bit": 0, "dct": dict(u8), "v": 0x7F},
+            {"pk": "matchreq", "name": "rqsid", "pos": 1, "rpos": 0, "n": 1},
+            {"pk": "nrc", "name": "nrc", "pos": 2, "bit": 0, "dct": dict(u8), "vals": sorted(vals)},
+            {"pk": "value", "name": "code", "pos": 2, "bit": 0, "dop": dop(i + 1), "default": None}]})
+    ops = []
+    rq_pdu = bytes([sid, draw(st.integers(0, 255))])
+    for m in msgs[1:]:
+        for v in m["params"][2]["vals"]:
+            ops.append({"op": "multi-layer-decode", "msgs": msgs, "data": bytes([0x7F, sid, v]).hex(),
+                        "request": rq_pdu.hex(), "label": m["id"]})
+    ops.append({"op": "multi-layer-decode", "msgs": msgs, "data": bytes([0x7F, sid, 0x05]).hex(),
+                "request": rq_pdu.hex(), "label": "no-nrc-applies"})
+    return ops
+
+
 def run_op(op, cache: dict):
     """executed inside a worker; returns the outcome under the *current* strict_mode"""
     from vlib import emit
+    if op["op"] == "multi-layer-decode":
+        key = core.canon({"msgs": op["msgs"]})
+        data = bytes.fromhex(op["data"])
+        rq = bytes.fromhex(op["request"])
+
+        def f():
+            if key not in cache:
+                cache[key] = emit.load_messages(core.unjson(op["msgs"]))
+            db, layer, objs = cache[key]
+            a = [[m.service.short_name, m.coding_object.short_name, m.param_dict] for m in layer.decode(data)]
+            b = [[m.service.short_name, m.coding_object.short_name, m.param_dict] for m in layer.decode_response(data, rq)]
+            return {"decode": a, "decode_response": b}
+        return _outcome(f)
     if op["op"] == "load-bad":
         def f():
             db = emit.load(op["xml"].encode("utf-8"))
@@ -253,7 +301,7 @@ def run_shard(spec, seed, tier):
     from hypothesis import given, strategies as st
     res = core.ShardResult()
     kf = known.load(PROPERTY)
-    n = 120 if tier == "quick" else 1200
+    n = 250 if tier == "quick" else 1500
     ops: list = []
 
     @st.composite
@@ -279,6 +327,17 @@ def run_shard(spec, seed, tier):
         c, extra = ce
         ops.extend(core.plain(make_ops(c, extra)))
     collect()
+
+    @st.composite
+    def nrc_strat(draw):
+        return nrc_service_ops(draw)
+
+    @hypothesis.seed(seed + 1)
+    @core.hyp_settings(max(10, n // 10), shrink=False)
+    @given(nrc_strat())
+    def collect2(o):
+        ops.extend(core.plain(o))
+    collect2()
     flip, born = run_workers(ops)
     seen = set()
     for op, fo, bo in zip(ops, flip, born):
